@@ -56,8 +56,8 @@ type Program struct {
 	storePaths map[ssa.Instruction]*Expr
 	spills     map[*ssa.Alloc]*ssa.Parameter
 	spillDone  map[*ssa.Function]bool
-	modsets  map[*ssa.Function]map[*types.Var]bool
-	astFuncs map[*types.Func]*ast.FuncDecl
+	modsets    map[*ssa.Function]map[*types.Var]bool
+	astFuncs   map[*types.Func]*ast.FuncDecl
 }
 
 // Site is an instruction inside a function.
